@@ -107,7 +107,7 @@ Theorem at_from_string_total s : benign (at_from_string s).
 Proof.
   unfold at_from_string. apply benign_bind; [apply do_match_benign|]. intros cs _.
   apply benign_bind.
-  - destruct (grp s cs rx_attribute_type_g_syntax) as [[|c raw]|]; try exact I.
+  - unfold split_syntax. destruct (grp s cs rx_attribute_type_g_syntax) as [[|c raw]|]; try exact I.
     set (syn := strip_chars [SQ] (c :: raw)).
     pose proof (re_match_total rx_noidlen rx_noidlen_end syn) as T.
     destruct (re_match rx_noidlen rx_noidlen_end syn) as [| |p c2] eqn:E; [congruence|exact I|].
